@@ -406,4 +406,15 @@ theorem C09_state_translated (ext : Ext) (m : Mw) (cfg : Option Config) (b : Boo
 
 #print axioms C09_state_translated
 
+
+/-- **C09 (translated handler, whole).** The whole closure returned by `Wrap`, read on the model's state — the snapshot of
+(configuration pointer, debug flag) under the read lock, the passthrough branch (`h.ServeHTTP(w, r); return`), then the
+dispatch — translated from /repo's middleware.go on every run, is `Mw.serve`: a passthrough middleware is the identity that
+calls the wrapped handler, a configured one answers with `Serve.serve icfg debug`.  (That the two fields are read in one
+critical section is `C07_wrap_snapshot`; the translator checks that the prologue consists of exactly those statements.) -/
+theorem C09_handler_translated (m : Mw) (r : Req) (pre : HdrMap) : Gen.GoSrc.serveMw m r pre = Mw.serve m r pre :=
+  Translated.serveMw_eq m r pre
+
+#print axioms C09_handler_translated
+
 end Cors
